@@ -3054,7 +3054,12 @@ func (s *BgpServer) adjRibOutForListPath(peer *peer, family bgp.Family, enableFi
 			toUpdate = adjRibOutPathsToUpdate(peer, paths, filtered)
 		})
 	}
-	adjRib.Update(toUpdate)
+	// toUpdate holds routes that are stored in the RIB (or clones sharing
+	// their origin info). AdjRib.Update treats two of them with the same
+	// destination and path id as a re-advertisement and copies the timestamp
+	// of the first onto the second, i.e. writes into a stored route.
+	// UpdateAdjRibOut only collects them for display.
+	adjRib.UpdateAdjRibOut(toUpdate)
 	return adjRib
 }
 
